@@ -21,7 +21,7 @@ git apply $S/patch.diff || { echo "patch does not apply" >> $LOG; exit 2; }
 echo "demo with patch: exit $(run_demo)" >> $LOG
 tail -3 /tmp/demo_$ID.out >> $LOG
 if [ $# -gt 0 ]; then
-  /venv/bin/python -m pytest -q -p no:cacheprovider --timeout=900 "$@" >/tmp/tests_$ID.out 2>&1
+  /venv/bin/python -m pytest -q -p no:cacheprovider --timeout=900 -n 4 "$@" >/tmp/tests_$ID.out 2>&1
   echo "unit tests ($*) with patch: exit $? : $(tail -1 /tmp/tests_$ID.out)" >> $LOG
 fi
 git checkout -q -- .
